@@ -49,6 +49,7 @@ template <typename TId, typename TValue>
 class BadDense : public Map<TId, TValue> {
     std::vector<TValue> m_vector;
 public:
+    void reserve(const std::size_t size) { m_vector.resize(size); }     // P1: cuts the vector down
     void set(const TId id, const TValue value) final {
         if (m_vector.size() <= id) {
             m_vector.resize(id);
